@@ -251,6 +251,7 @@ def main() -> int:
             continue
         if r.get("_retried_after_death"):
             died_once += 1
+            rep.extra.setdefault("process_deaths", []).append({"how": r["_retried_after_death"], "plan": p[0], "seed": p[1], "mode": p[2]})
         if r.get("_error"):
             raise common.MachineryError("threaded run failed: " + str(r)[:300])
         if r.get("_timeout") or r.get("stuck"):
